@@ -280,6 +280,67 @@ class Obs(Component):
                                                         aggregator=_RiskSum(nv), requires_values=[f"risk_{k}" for k in range(nv)])
 
 
+class _Const:
+    def __init__(self, v):
+        self.v = v
+
+    def __call__(self, index, *a):
+        return pd.Series(self.v, index=index)
+
+
+class Extras(Component):
+    """further framework services inside the same program: get_seed (external RNG seeded by the framework), a
+    list-combiner pipeline with the union post-processor and modifiers from this component, a lookup table with a
+    `year` parameter and a scalar table, move_simulants_to_end for untracked simulants (per-simulant clocks only)."""
+
+    def __init__(self, spec):
+        super().__init__()
+        self.spec = spec
+
+    @property
+    def name(self):
+        return "extras"
+
+    @property
+    def columns_created(self):
+        return ["extra", "exposure"]
+
+    @property
+    def columns_required(self):
+        return ["age", "tracked"]
+
+    def setup(self, builder):
+        from vivarium.framework.values import list_combiner, union_post_processor
+        self.get_seed = builder.randomness.get_seed
+        self.paf = builder.value.register_value_producer(
+            "paf", source=lambda index: [pd.Series(0.0, index=index)], preferred_combiner=list_combiner,
+            preferred_post_processor=union_post_processor)
+        for v in self.spec["extras"].get("pafs", [0.25, 0.5]):
+            builder.value.register_value_modifier("paf", _Const(v))
+        if _is_dt(self.spec):
+            data = pd.DataFrame([{"year_start": y, "year_end": y + 1, "value": float(y - 2015)} for y in range(2015, 2030)])
+            self.by_year = builder.lookup.build_table(data, parameter_columns=["year"], value_columns=["value"])
+        else:
+            self.by_year = builder.lookup.build_table(3.0)
+        self.scalar = builder.lookup.build_table((1.5, 2.5), value_columns=["p", "q"])
+        self.move = builder.time.move_simulants_to_end() if self.spec.get("stepmod") else None
+
+    def on_initialize_simulants(self, pop_data):
+        idx = pop_data.index
+        rs = np.random.RandomState(self.get_seed("extras_init"))        # framework-seeded external generator
+        self.population_view.update(pd.DataFrame({"extra": rs.random_sample(len(idx)), "exposure": 0.0}, index=idx))
+
+    def on_time_step_cleanup(self, event):
+        pop = self.population_view.get(event.index)
+        if len(pop):
+            add = self.paf(pop.index) + self.by_year(pop.index).squeeze() / 16.0 + self.scalar(pop.index)["q"]
+            self.population_view.update((pop["exposure"] + add).rename("exposure"))
+        if self.move is not None:
+            full = self.population_view.subview(["tracked"]).get(event.index, query="tracked == False")
+            if len(full):
+                self.move(full.index)
+
+
 def build(spec):
     comps = [Pop(spec)]
     if spec.get("mort"):
@@ -290,6 +351,8 @@ def build(spec):
         comps.append(StepMod(spec))
     if spec.get("obs"):
         comps.append(Obs(spec))
+    if spec.get("extras"):
+        comps.append(Extras(spec))
     order = spec.get("order")
     if order:
         comps = [comps[i % len(comps)] for i in order if i < len(comps)] + [c for k, c in enumerate(comps) if k not in order]
